@@ -327,6 +327,26 @@ func c12Verifier(r *Run, t *tape.Tape) {
 	verifier := r.verifierFor(vkey, false)
 	var msg *cose.Sign1Message
 	var err error
+	if t.Bool(1, 3, "c12.v.history") {
+		// history: the application has handled these very bytes before - it
+		// verified them, decoded them and edited ITS decoded copy (dropped the
+		// governed labels, set a hash algorithm).  None of that may influence
+		// what VerifyHashEnvelope decides about the bytes now.
+		r.Lib(func() { cose.VerifyHashEnvelope(verifier, wire) })
+		var prev cose.Sign1Message
+		var derr error
+		r.Lib(func() { derr = prev.UnmarshalCBOR(wire) })
+		if derr == nil {
+			for _, l := range []int64{3, 258, 259, 260} {
+				delete(prev.Headers.Protected, l)
+				delete(prev.Headers.Unprotected, l)
+			}
+			if prev.Headers.Protected != nil {
+				prev.Headers.Protected[int64(258)] = cose.AlgorithmSHA256
+			}
+			r.Fired("history.app-edits-earlier-decode")
+		}
+	}
 	r.Lib(func() { msg, err = cose.VerifyHashEnvelope(verifier, wire) })
 	r.Op("DELIVER", "byzantine envelope (%s, hash %d, digest %dB, detached=%v) -> %s", broken, ha, n, detached, errTag(err))
 	r.Outcome("verify/" + broken + "/" + errTag(err))
